@@ -38,12 +38,13 @@ impl Prop for C05Prop {
             n_small: (0, 10),
             n_large: (21, 45),
             // weighted runs need positive, exactly summable weights (ties are exact)
-            regimes: vec![WeightRegime::AllNan, WeightRegime::Dyadic, WeightRegime::Dyadic, WeightRegime::SmallInt],
+            regimes: vec![WeightRegime::AllNan, WeightRegime::Dyadic, WeightRegime::Dyadic, WeightRegime::SmallInt, WeightRegime::Nasty, WeightRegime::FineDyadic, WeightRegime::NearEqual, WeightRegime::Tiny],
             kinds: AlgoGen::all_kinds(),
             shapes: None,
             lifecycle_pct: 30,
             keyings: 1,
             boundary_per_mille: 0,
+            huge_one_in: 1500,
         }
         .gen("C05", seed, idx)
         .tap(|case| {
@@ -83,9 +84,17 @@ impl Prop for C05Prop {
         }
         for weighted in modes {
             let orc = DistOracle::new(snap, !weighted);
-            if !orc.exact {
-                continue;
-            }
+            // weights whose sums are not exact: "shortest" is read either on accumulated float path lengths
+            // (ties bit for bit) or up to rounding (ties at 1e-9); the answer must be one of the two
+            let float_orc = if !orc.exact {
+                if !algo::comparable_scale(snap) {
+                    continue;
+                }
+                cx.count("probe.inexactly_summable_weights");
+                Some(DistOracle::new_float(snap))
+            } else {
+                None
+            };
             if algo::sigma_max(&orc) > 1.0 {
                 cx.count(if weighted { "probe.ties_under_weights" } else { "probe.ties_hop" });
             }
@@ -108,6 +117,29 @@ impl Prop for C05Prop {
                     return;
                 }
                 let exp = orc.betweenness(normalized, snap.directed);
+                if let Some(fo) = &float_orc {
+                    let exp_f = fo.betweenness_brandes(normalized, snap.directed);
+                    let ok_f = (0..n).all(|v| close(got[&snap.names[v]], exp_f[v]));
+                    let ok_t = (0..n).all(|v| close(got[&snap.names[v]], exp[v]));
+                    if ok_f != ok_t {
+                        cx.count("probe.near_tie_decides_the_value");
+                    }
+                    if !ok_f && !ok_t {
+                        let v = (0..n).find(|v| !close(got[&snap.names[*v]], exp_f[*v])).unwrap_or(0);
+                        let sig = format!("value {} weighted {} [inexactly summable weights]", if snap.directed { "directed" } else { "undirected" }, if normalized { "normalized" } else { "raw" });
+                        cx.fail("C05.value", &sig, format!("betweenness({:?}) = {} but the definition gives {} when path lengths are compared as accumulated floats and {} when ties are taken at 1e-9; the vector matches neither reading (normalized={}, n={}, pool={}) [{}]", snap.names[v], got[&snap.names[v]], exp_f[v], exp[v], normalized, n, env.pool, case.specs.short()));
+                        return;
+                    }
+                    continue;
+                }
+                if weighted && n <= 45 {
+                    // self-check of the oracle: Brandes' accumulation equals the pair-sum definition
+                    let bb = orc.betweenness_brandes(normalized, snap.directed);
+                    if (0..n).any(|v| !close(bb[v], exp[v])) {
+                        cx.fail("HARNESS.oracle", "harness", format!("the two betweenness oracles disagree: {:?} vs {:?}", bb, exp));
+                        return;
+                    }
+                }
                 for v in 0..n {
                     let x = got[&snap.names[v]];
                     if !close(x, exp[v]) {
@@ -127,9 +159,9 @@ impl Prop for C05Prop {
         cx.states.push(super::lifecycle::ops_hash(&case.ops));
     }
     fn rule(&self) -> String {
-        "graphs of all 8 kinds (shapes and lifecycle-built, n <= 10 or 21-45), hop counts or positive dyadic weights; betweenness_centrality(weighted x normalized) under a simulated pool of 1-16 workers vs the definition (sum over ordered pairs of sigma(s,v) sigma(v,t)/sigma(s,t) from Floyd-Warshall distances and path counts, halved when undirected, /(n-1)(n-2) when normalized and n > 2) at 1e-9, exactly one entry per node. distinct_nontrivial = distinct graphs with >= 2 edges".into()
+        "graphs of all 8 kinds (shapes and lifecycle-built, n <= 10 or 21-45), hop counts or positive dyadic weights; betweenness_centrality(weighted x normalized) under a simulated pool of 1-16 workers vs the definition (sum over ordered pairs of sigma(s,v) sigma(v,t)/sigma(s,t) from Floyd-Warshall distances and path counts, halved when undirected, /(n-1)(n-2) when normalized and n > 2) at 1e-9, exactly one entry per node. distinct_nontrivial = distinct graphs with >= 2 edges; one case in 1500 is a dense graph (1-3 blocks, 60-300 nodes) with 2 100 - 12 500 stored edges under a pool of 2-16 workers (strategy thresholds); weights also 1 + k 2^-j (exact) and decimal / near-equal / 1e-17-scale weights, for which the whole vector must equal the definition under the accumulated-float reading (Brandes accumulation over bit-exact ties of the least fixpoint d(v) = min fl(d(u)+w)) or under the 1e-9 reading".into()
     }
     fn assumptions(&self) -> Vec<String> {
-        vec!["weighted runs use positive dyadic weights so that path-length ties are exact".into()]
+        vec!["under dyadic weights path-length ties are exact and the definition is unique; under inexactly summable weights two readings of \"shortest\" are accepted (accumulated floats compared bit for bit, or ties at 1e-9) and the vector must match one of them as a whole; graphs whose weight scales differ by more than 1e9 are skipped in weighted mode".into()]
     }
 }
